@@ -8,7 +8,7 @@ class whose copy_from cannot rebuild it, H7 default formatter instance exists.
 import ast
 import importlib
 
-from ..astx import dotted, call_name, walk_no_nested, parent, self_attr, func_params, terminates, resolve_local
+from ..astx import dotted, call_name, walk_no_nested, parent, self_attr, func_params, terminates, resolve_local, ancestors
 from ..callgraph import CallGraph, diff_entries
 from ..core import norm
 from .. import nodeshape
@@ -577,6 +577,92 @@ def h9_palettes(ctx):
     ctx.floor("H9", n, 2, "palette lookups")
 
 
+def _lookup_domain(fn, palette):
+    """Names X such that the lookup function fn answers for `<palette>.X`: direct `color == <palette>.X` comparisons, and
+    `color == getattr(<palette>, EXPR)` inside `for name in (<constants>)`, EXPR evaluated for every name (constants,
+    name, name.upper()/lower(), f-strings and + of those).  None if some comparison cannot be evaluated."""
+    dom = set()
+
+    def ev(e, env):
+        if isinstance(e, ast.Constant) and isinstance(e.value, str):
+            return e.value
+        if isinstance(e, ast.Name) and e.id in env:
+            return env[e.id]
+        if isinstance(e, ast.Call) and isinstance(e.func, ast.Attribute) and e.func.attr in ("upper", "lower") and not e.args:
+            v = ev(e.func.value, env)
+            return None if v is None else getattr(v, e.func.attr)()
+        if isinstance(e, ast.JoinedStr):
+            out = ""
+            for part in e.values:
+                v = part.value if isinstance(part, ast.Constant) else (ev(part.value, env) if isinstance(part, ast.FormattedValue) and part.format_spec is None else None)
+                if v is None:
+                    return None
+                out += v
+            return out
+        if isinstance(e, ast.BinOp) and isinstance(e.op, ast.Add):
+            a, b = ev(e.left, env), ev(e.right, env)
+            return None if a is None or b is None else a + b
+        return None
+    for c in walk_no_nested(fn):
+        if not (isinstance(c, ast.Compare) and len(c.ops) == 1 and isinstance(c.ops[0], ast.Eq)):
+            continue
+        for side in (c.left, c.comparators[0]):
+            if isinstance(side, ast.Attribute) and dotted(side.value) == palette:
+                dom.add(side.attr)
+            elif isinstance(side, ast.Call) and call_name(side) == "getattr" and len(side.args) == 2 and dotted(side.args[0]) == palette:
+                loops = [a for a in ancestors(side) if isinstance(a, ast.For) and isinstance(a.target, ast.Name)
+                         and isinstance(a.iter, (ast.Tuple, ast.List)) and all(isinstance(x, ast.Constant) for x in a.iter.elts)]
+                envs = [{}]
+                for lp in loops:
+                    envs = [dict(e_, **{lp.target.id: x.value}) for e_ in envs for x in lp.iter.elts]
+                for env in envs:
+                    v = ev(side.args[1], env)
+                    if v is None:
+                        return None
+                    dom.add(v)
+    return dom
+
+
+def h9b(ctx):
+    m = ctx.model
+    ctx.rule("H9b", "writer / reader agreement on colours: every colour constant the package hands to a printer (`Fore.X`, `Back.X` "
+                    "anywhere outside the lookup functions themselves) is one the HTML printer's lookup (HTMLANSIContext.get_fore / "
+                    "get_back) answers for - otherwise the same document prints in a terminal and raises 'Unknown ANSI color' "
+                    "with --html and colour on")
+    hq = m.need_class("HTMLANSIContext")
+    doms = {}
+    for pal, meth in (("Fore", "get_fore"), ("Back", "get_back")):
+        f = m.method(hq, meth)
+        if f is None:
+            ctx.inconclusive("H9b", "graphtage/printer.py", f"HTMLANSIContext.{meth}", None, f"{meth} domain", f"{meth} not found")
+            return
+        d = _lookup_domain(f.node, pal)
+        if not d:
+            ctx.inconclusive("H9b", f.file, f.short, f.node, f"{meth} domain", f"cannot evaluate which {pal} constants {meth} answers for")
+            return
+        doms[pal] = (d, f)
+    n = 0
+    for fq, f in sorted(m.functions.items()):
+        if f.cls == hq and f.node.name in ("get_fore", "get_back"):
+            continue
+        for x in walk_no_nested(f.node):
+            if isinstance(x, ast.Attribute) and isinstance(x.ctx, ast.Load) and dotted(x.value) in doms and x.attr.isupper() \
+                    and not x.attr.startswith("RESET"):
+                r = m.resolve_expr(f.module, x.value)
+                if not (r and r[0] and r[0][0] == "ext" and "colorama" in r[0][1]):
+                    continue
+                n += 1
+                d, lf = doms[dotted(x.value)]
+                if x.attr in d:
+                    ctx.proved("H9b", f.file, f.short, x, f"{dotted(x.value)}.{x.attr}", f"{lf.short} answers for it")
+                else:
+                    ctx.violation("H9b", f.file, f.short, x, f"{dotted(x.value)}.{x.attr}",
+                                  f"{f.short} colours its output with `{dotted(x.value)}.{x.attr}`, which {lf.short} does not know "
+                                  f"(it answers for {sorted(d)}): rendering through an HTMLPrinter with colour on raises "
+                                  f"ValueError('Unknown ANSI color') where the terminal printer works")
+    ctx.floor("H9b", n, 30, "colour constants handed to printers")
+
+
 def h6_copy(ctx, reach):
     m = ctx.model
     ctx.rule("H6", "copy() is reachable while printing (formatter fallbacks copy children); every concrete node class "
@@ -992,6 +1078,7 @@ def run(ctx):
     e5_cycles(ctx, roots, node_classes)
     h8_overrides(ctx)
     h9_palettes(ctx)
+    h9b(ctx)
     h10_release(ctx, cg)
     h11_leaf_domains(ctx, roots)
     h6_copy(ctx, reach)
